@@ -42,6 +42,7 @@ class C08(HistoryProp):
         ops = [['engine', E]]
         scripts = []
         kwnames = set()
+        binames = set()
         for _ in range(2 + src.n(3)):
             preds, clauses = gen.gen_program(src, CFG)
             if src.n(4) == 3:
@@ -57,6 +58,12 @@ class C08(HistoryProp):
                                            (('f', kw[1], (('v', 'K0'), ('v', 'K1'))), (',', ('call', ('f', kw[0], (('v', 'K0'),))), ('call', ('f', '=', (('v', 'K1'), ('a', kw[0])))))),
                                            (('f', 'p', (('v', 'K0'),)), ('call', ('f', kw[1], (('v', 'K0'), ('v', 'K2')))))]
                 kwnames.update(kw)
+            if src.n(5) == 3:
+                # a script that brings its own version of a predicate the engine has built in (a portability shim): the
+                # loader treats it like any other definition
+                bi = src.pick([('once', 1), ('retractall', 1), ('findall', 3), ('retract', 1)])
+                clauses = list(clauses) + [(('f', bi[0], tuple(('a', 'shim%d' % i) for i in range(bi[1]))), ('true',))]
+                binames.add(bi)
             scripts.append(clauses)
         route = 'string'
         if src.n(4) == 1:
@@ -86,6 +93,9 @@ class C08(HistoryProp):
                 for n in range(0, 3):
                     if src.n(3) != 0 or (name, n) in defined:
                         out.append(['run', E, ('f', name, tuple(('v', 'Q%d' % i) for i in range(n))) if n else ('a', name), 12])
+            for name, n in sorted(binames):
+                if src.n(2):
+                    out.append(['run', E, ('f', name, tuple(('a', 'shim%d' % i) if src.n(2) else ('v', 'Q%d' % i) for i in range(n))), 5])
             if src.n(3) == 0:
                 nm = src.pick(RESERVED)
                 n = src.n(4)
